@@ -82,10 +82,12 @@ def judge(ctx, sc, ims):
         loaded = False
         prev_obs = None
         prev_ilis = None
+        exp_all = None
         for k, op in enumerate(ops):
             if op['k'] == 'ili':
                 exp = expected_for(op['_rows'])
                 listed = set(exp)
+                exp_all = dict(exp_all or {}, **exp)
                 if not im[k].get('ok'):
                     ctx.fail('index-file-is-accepted', sc, {'out': im[k]})
                     return
@@ -110,6 +112,17 @@ def judge(ctx, sc, ims):
                 prev_obs = im[k]
             if op['k'] == 'ilis':
                 prev_ilis = im[k]
+                # Synset.ili shows the ILI as wn.ili(id) shows it
+                for i_, lst in (im[k].get('_via_synsets') or {}).items():
+                    v_ = im[k]['by_id'].get(i_)
+                    if v_ not in (None, 'error') and lst != [v_[1:]]:
+                        ctx.fail('Synset.ili-reports-the-status-and-definition-of-its-ILI', sc, {'ili': i_, 'via synsets': lst, 'wn.ili(id)': v_[1:]})
+                        break
+                # an index loaded into a database without lexicons is listed by ilis()
+                if loaded and prev_obs == [] and exp_all is not None:
+                    missing = sorted(set(exp_all) - {i[0] for i in im[k]['all']})
+                    if missing:
+                        ctx.fail('ilis()-lists-the-ILIs-of-the-loaded-index-while-no-lexicon-is-installed', sc, {'missing': missing[:6], 'listed': [i[0] for i in im[k]['all']][:6]})
                 # ilis(status=s) is the sub-list of ilis() with that status
                 for fld in ('_by_status', '_by_status_w'):
                     for st, got in (im[k].get(fld) or {}).items():
